@@ -137,8 +137,10 @@ func newConn(h *Handler, s *xmpp.Session, iq openIQ, recv bool, maxBufSize int) 
 	}
 
 	return &Conn{
-		readBuf:        bytes.NewBuffer(make([]byte, 0, blockSize)),
-		readReady:      make(chan struct{}),
+		readBuf: bytes.NewBuffer(make([]byte, 0, blockSize)),
+		// Buffered so that the handler's non-blocking notification is not lost
+		// when the reader has seen the empty buffer but is not receiving yet.
+		readReady:      make(chan struct{}, 1),
 		s:              s,
 		writeBuf:       bufio.NewWriterSize(b64Writer, int(blockSize)),
 		closeFlushFunc: b64Writer.Close,
@@ -174,10 +176,15 @@ func (c *Conn) Read(b []byte) (n int, err error) {
 	// In this case wait for a signal that there is more data to read.
 	// When the connection is closed this same signal is sent and our final read
 	// from the empty buffer will result in 0, io.EOF as expected.
-	if c.readBuf.Len() == 0 {
+	for c.readBuf.Len() == 0 {
 		c.readLock.Unlock()
-		<-c.readReady
+		_, open := <-c.readReady
 		c.readLock.Lock()
+		if !open {
+			// Closed: whatever is left in the buffer (possibly nothing, which
+			// reads as io.EOF) is all there will ever be.
+			break
+		}
 	}
 
 	return c.readBuf.Read(b)
